@@ -42,7 +42,7 @@ func genClose(t *rapid.T) CloseCase {
 	}
 	c.Cfg.Immutable = false
 	c.Keys = genKeys(t, c.Cfg, 2, 8)
-	m := genMix(t, []string{opPut, opRemove, opFlush, opGet}, []int{8, 2, 3, 1})
+	m := genMix(t, []string{opPut, opRemove, opFlush, opGet, opIter}, []int{8, 3, 3, 1, 2})
 	c.Ops = genOps(t, m, len(c.Keys), c.Cfg, 3, 25, false)
 	switch c.Mode {
 	case "parked":
@@ -198,6 +198,15 @@ func runClose(c CloseCase) (st closeStats, v *Violation) {
 					model[-1] = nil
 				}
 				continue
+			case opIter:
+				// Whole-store iteration opens index and primary files through
+				// the file cache; every handle must be given back.
+				it := s.NewIterator()
+				for n := 0; n < 10000; n++ {
+					if _, _, err := it.Next(); err != nil {
+						break
+					}
+				}
 			case opFlush:
 				s.Flush()
 			case opGet:
